@@ -20,11 +20,13 @@ namespace gg = galois::graphs;
 //  1  LC_CSR_Graph<int,void>, no_lockable, numa_alloc (local ranges come from divideByNode)
 //  2  LC_CSR_Graph<int,int>, numa_alloc               (default abstract locks, edge data)
 //  3  LC_CSR_Graph<int,int>, no_lockable, numa_alloc, built by constructFrom(prefix sum) + initializeLocalRanges
+//  4  LC_CSR_Graph<int,int>                           (default abstract locks, interleaved; unit ranges only)
 typedef gg::LC_CSR_Graph<int, void>::with_no_lockable<true>::type G0;
 typedef gg::LC_CSR_Graph<int, void>::with_no_lockable<true>::type::with_numa_alloc<true>::type G1;
 typedef gg::LC_CSR_Graph<int, int>::with_numa_alloc<true>::type G2;
 typedef gg::LC_CSR_Graph<int, int>::with_no_lockable<true>::type::with_numa_alloc<true>::type G3;
-// (the functor constructor does not compile with numa_alloc<true>: outOfLineAllocateBlocked(n, bool) does not exist)
+// default abstract locks, edge data, interleaved allocation (the functor constructor of LC_CSR_Graph cannot
+// be used: it does not compile, outOfLineAllocateBlocked(n, bool) does not exist)
 typedef gg::LC_CSR_Graph<int, int> G2F;
 
 const char* c13::graphKindName(int k) {
@@ -32,7 +34,8 @@ const char* c13::graphKindName(int k) {
   case 0: return "LC_CSR<int,void,no_lockable>";
   case 1: return "LC_CSR<int,void,no_lockable,numa>";
   case 2: return "LC_CSR<int,int,numa>";
-  default: return "LC_CSR<int,int,no_lockable,numa>/constructFrom(prefix)";
+  case 3: return "LC_CSR<int,int,no_lockable,numa>/constructFrom(prefix)";
+  default: return "LC_CSR<int,int>(abstract locks)";
   }
 }
 
@@ -125,8 +128,15 @@ void c13::runUnitRangesFromGraph(Acc& A, Rng& rng, GraphObjCtx& C, int graphKind
       run(g);
     } else {
       // complete graph object with abstract locks (edge_begin walks the neighbours)
-      G2F g((uint32_t)n, m, [&](size_t s) { return deg[s]; }, [&](size_t s, uint64_t j) { return (uint32_t)((s + 1 + j) % n); },
-           [&](size_t, uint64_t j) { return (int)j; });
+      G2F g;
+      g.allocateFrom((uint32_t)n, m);
+      g.constructNodes();
+      uint64_t eidx = 0;
+      for (size_t s = 0; s < n; ++s) {
+        for (uint64_t j = 0; j < deg[s]; ++j, ++eidx)
+          g.constructEdge(eidx, (uint32_t)((s + 1 + j) % n), (int)j);
+        g.fixEndEdge((uint32_t)s, pre[s]);
+      }
       run(g);
     }
   }
